@@ -1,0 +1,75 @@
+//go:build verif
+
+package device
+
+import (
+	"time"
+)
+
+// Hooks for the C07 (session-key lifecycle) check.  Add-only; build tag verif.
+
+// VerifC07SendHandshakeInitiation calls peer.SendHandshakeInitiation(isRetry) the way the
+// timer callbacks (expiredNewHandshake, expiredRetransmitHandshake) do.
+func (device *Device) VerifC07SendHandshakeInitiation(pk NoisePublicKey, isRetry bool) bool {
+	device.peers.RLock()
+	peer := device.peers.keyMap[pk]
+	device.peers.RUnlock()
+	if peer == nil {
+		return false
+	}
+	return peer.SendHandshakeInitiation(isRetry) == nil
+}
+
+// VerifC07State reports the rekey latch and the age of lastSentHandshake
+// (zero reports whether lastSentHandshake is still far in the past, i.e. never set).
+type VerifC07State struct {
+	SentLastMinuteHandshake bool
+	LastSentZero            bool
+	LastSentAgeNanos        int64
+}
+
+// VerifC07Extra returns the parts of the peer's state that VerifPeer does not show.
+func (device *Device) VerifC07Extra(pk NoisePublicKey) (st VerifC07State) {
+	device.peers.RLock()
+	peer := device.peers.keyMap[pk]
+	device.peers.RUnlock()
+	if peer == nil {
+		return
+	}
+	st.SentLastMinuteHandshake = peer.timers.sentLastMinuteHandshake.Load()
+	peer.handshake.mutex.RLock()
+	t := peer.handshake.lastSentHandshake
+	peer.handshake.mutex.RUnlock()
+	st.LastSentAgeNanos = int64(time.Since(t))
+	st.LastSentZero = t.Year() < 1900
+	return
+}
+
+// VerifC07ShiftInitiationConsumption moves only lastInitiationConsumption d into the past
+// (neutralises the 20 ms initiation flood limit without touching lastSentHandshake).
+func (device *Device) VerifC07ShiftInitiationConsumption(pk NoisePublicKey, d time.Duration) bool {
+	device.peers.RLock()
+	peer := device.peers.keyMap[pk]
+	device.peers.RUnlock()
+	if peer == nil {
+		return false
+	}
+	peer.handshake.mutex.Lock()
+	defer peer.handshake.mutex.Unlock()
+	peer.handshake.lastInitiationConsumption = peer.handshake.lastInitiationConsumption.Add(-d)
+	return true
+}
+
+// VerifC07ShiftLastSentHandshake moves only lastSentHandshake d into the past.
+func (device *Device) VerifC07ShiftLastSentHandshake(pk NoisePublicKey, d time.Duration) bool {
+	device.peers.RLock()
+	peer := device.peers.keyMap[pk]
+	device.peers.RUnlock()
+	if peer == nil {
+		return false
+	}
+	peer.handshake.mutex.Lock()
+	defer peer.handshake.mutex.Unlock()
+	peer.handshake.lastSentHandshake = peer.handshake.lastSentHandshake.Add(-d)
+	return true
+}
